@@ -4,7 +4,7 @@ from typing import Any, cast
 from guppylang_internals.definition.ty import TypeDef
 from guppylang_internals.tys.arg import TypeArg
 from guppylang_internals.tys.common import Visitor
-from guppylang_internals.tys.ty import OpaqueType, Type
+from guppylang_internals.tys.ty import OpaqueType, StructType, Type
 
 
 @functools.cache
@@ -49,6 +49,12 @@ class QubitFinder(Visitor):
     def _visit_TypeArg(self, arg: TypeArg) -> bool:
         arg.ty.visit(self)
         return True
+
+    @visit.register
+    def _visit_StructType(self, ty: StructType) -> bool:
+        for field in ty.fields:
+            field.ty.visit(self)
+        return False
 
 
 def contain_qubit_ty(ty: Type) -> bool:
